@@ -22,7 +22,8 @@ OK_C09 == "C09" \notin bad
 OK_C13 == "C13" \notin bad
 OK_C14 == "C14" \notin bad
 OK_C17 == "C17" \notin bad
-OK_C18 == bad \cap {"C04", "C09", "OTH"} = {}      \* containment under allocation failure: no hang, callbacks consistent, others untouched
+OK_C18 == bad \cap {"C04", "C09", "OTH", "C18"} = {}      \* containment under allocation failure: no hang, callbacks consistent, others
+                                                           \* untouched, and the exchange ends as predicted, as before it, or purged with a reset due
 OK_ALL == bad = {}
 KfReport == (l = Len(JTrace) + 1 /\ c.kf # {}) => PrintT(<<"KF-USED", c.kf>>)
 TraceAccepted == TLCGet("stats").diameter - 1 = Len(JTrace)
